@@ -20,7 +20,7 @@ import ast
 from .. import tracetab
 from ..astutil import call_name, calls, dotted, names_in, param_names, stmts, walk_local
 from ..core import AnalysisError, Mutant
-from ..exprnorm import contains_expr
+from ..exprnorm import canon, contains_expr, same_expr, spec
 
 EXPLANATION = (
     "Exhaustive evaluation of the trace selectors from their ASTs over all weak orderings of their "
@@ -157,10 +157,25 @@ def run(ctx):
                    f"a non-positive score in the {state} table must clear exactly {sorted(want)} (local alignments end "
                    "there) and otherwise store the score", st.lineno)
     fl = s.func("_fill_align_table")
-    ctx.ob("R3.local-floor-linear", PW, "_fill_align_table", "local and score <= 0 -> cell stays 0 without trace",
-           any(isinstance(st, ast.If) and "score <= 0" in ast.unparse(st.test) and "local" in ast.unparse(st.test)
-               and any(isinstance(b, ast.Continue) for b in st.body) for st in ast.walk(fl)),
-           "in local mode a non-positive cell must keep score 0 and no trace flag", fl.lineno)
+    # the block that stores the cell: a guard `if local and score <= 0: continue` precedes both stores (score and trace)
+    from ..facts import conjuncts as _conj
+    floor_ok = False
+    for lp in ast.walk(fl):
+        if not isinstance(lp, ast.For):
+            continue
+        body = lp.body
+        st_i = [k for k, b in enumerate(body) if isinstance(b, ast.Assign) and isinstance(b.targets[0], ast.Subscript)
+                and isinstance(b.targets[0].value, ast.Name) and b.targets[0].value.id in ("score_table", "trace_table")]
+        if len(st_i) < 2:
+            continue
+        for k, b in enumerate(body[:min(st_i)]):
+            if isinstance(b, ast.If) and not b.orelse and len(b.body) == 1 and isinstance(b.body[0], ast.Continue):
+                cj = {repr(canon(c)) for c in _conj(b.test)}
+                if cj in ({repr(spec("local == True")), repr(spec("score <= 0"))}, {repr(spec("local")), repr(spec("score <= 0"))}):
+                    floor_ok = True
+    ctx.ob("R3.local-floor-linear", PW, "_fill_align_table", "local and score <= 0 -> cell stays 0 without trace", floor_ok,
+           "in local mode a non-positive cell must keep score 0 and no trace flag: `if local and score <= 0: continue` before the cell is stored",
+           fl.lineno)
     # loops cover the table from 1
     for q in ("_fill_align_table", "_fill_align_table_affine"):
         f = s.func(q)
@@ -213,19 +228,41 @@ def run(ctx):
            f"the traceback must start in the state of the table that holds the maximum: {want_s}", ao.lineno)
     ctx.ob("R3.start-states", PW, "align_optimal", "local affine start: MATCH_STATE", "np.full(len(i_list), 1)" in t
            and en["TraceState"]["MATCH_STATE"] == 1, "local alignments end with a match", ao.lineno, nontrivial=False)
-    ctx.ob("R3.reported-score", PW, "align_optimal", "Alignment([seq1, seq2], trace, max_score)",
-           "Alignment([seq1, seq2], trace, max_score)" in t and "max(m_table[i_start, j_start], g1_table[i_start, j_start], g2_table[i_start, j_start])" in t
-           and "max_score = score_table[i_start, j_start]" in t,
-           "the reported score is the maximum of the start cell", ao.lineno, nontrivial=False)
+    # the reported score: every binding of max_score is the maximum of the table(s) the traceback starts from, and it is what
+    # every returned Alignment carries
+    def _canon_max(e):
+        c_ = canon(e)
+        if isinstance(e, ast.Call) and call_name(e) == "max" and not e.keywords:
+            return ("max",) + tuple(sorted((repr(canon(a)) for a in e.args)))
+        return c_
+    ms_vals = {repr(_canon_max(st.value)) for st in ast.walk(ao) if isinstance(st, ast.Assign) and len(st.targets) == 1
+               and isinstance(st.targets[0], ast.Name) and st.targets[0].id == "max_score"}
+    want_ms = {repr(_canon_max(ast.parse(x, mode="eval").body)) for x in (
+        "np.max(m_table)", "np.max(score_table)", "score_table[i_start, j_start]",
+        "max(m_table[i_start, j_start], g1_table[i_start, j_start], g2_table[i_start, j_start])")}
+    rets = [st for st in stmts(ao) if isinstance(st, ast.Return)]
+    ret_ok = len(rets) == 1 and isinstance(rets[0].value, ast.ListComp) and len(rets[0].value.generators) == 1 \
+        and isinstance(rets[0].value.generators[0].target, ast.Name) and same_expr(rets[0].value.generators[0].iter, "trace_list") \
+        and same_expr(rets[0].value.elt, f"Alignment([seq1, seq2], {rets[0].value.generators[0].target.id}, max_score)")
+    ctx.ob("R3.reported-score", PW, "align_optimal", "Alignment([seq1, seq2], trace, max_score) for trace in trace_list", ret_ok and ms_vals == want_ms,
+           "the reported score is the maximum of the start cell(s) - local: np.max of the (match) table, global: the last cell, "
+           f"affine: the largest of the three tables there; the code binds max_score to {len(ms_vals)} different expressions", ao.lineno)
     # R4
-    ctx.ob("R4.max-number-validated", PW, "align_optimal", "max_number < 1 -> raise", "if max_number < 1:" in t, "", ao.lineno, nontrivial=False)
+    val_guard = [st for st in ao.body if isinstance(st, ast.If) and same_expr(st.test, "max_number < 1") and st.body and isinstance(st.body[-1], ast.Raise)]
+    ctx.ob("R4.max-number-validated", PW, "align_optimal", "max_number < 1 -> raise", len(val_guard) == 1,
+           "a limit below one alignment must be refused", ao.lineno)
     ft = [c for c in calls(ao) if call_name(c) == "follow_trace"]
     ctx.ob("R4.max-number-budget", PW, "align_optimal", "follow_trace(..., max_trace_count=max_number)",
-           bool(ft) and all(any(k.arg == "max_trace_count" and ast.unparse(k.value) == "max_number" for k in c.keywords) for c in ft),
+           bool(ft) and all(any(k.arg == "max_trace_count" and same_expr(k.value, "max_number") for k in c.keywords) for c in ft),
            "the traceback budget must be max_number", ao.lineno)
+    # the truncation sits between the traceback loop and the return, at the top level of the function
+    k_ft = max([k for k, st in enumerate(ao.body) if any(isinstance(c, ast.Call) and call_name(c) == "follow_trace" for c in ast.walk(st))] or [-1])
+    k_ret = max([k for k, st in enumerate(ao.body) if isinstance(st, ast.Return)] or [-1])
+    trunc = [k for k, st in enumerate(ao.body) if isinstance(st, ast.Assign) and len(st.targets) == 1 and same_expr(st.targets[0], "trace_list")
+             and same_expr(st.value, "trace_list[:max_number]")]
     ctx.ob("R4.max-number-truncated", PW, "align_optimal", "trace_list = trace_list[:max_number]",
-           "trace_list = trace_list[:max_number]" in t,
-           "several start cells each get the full budget: the final list must be truncated to max_number", ao.lineno)
+           k_ft >= 0 and any(k_ft < k < k_ret for k in trunc),
+           "several start cells each get the full budget: the final list must be truncated to max_number before the alignments are built", ao.lineno)
 
 
 MUTANTS = [
